@@ -87,6 +87,7 @@ type Stream struct {
 	// EOM (End of Message) handling
 	sendBuffer    []byte // Buffer for building messages across multiple writes
 	sendEOM       bool   // True if EOM has been indicated for current message
+	sendPartial   bool   // True once a partial frame of the current outbound message is on the wire
 	receiveBuffer []byte // Buffer for accumulating partial frames
 	bytesRead     int    // Bytes consumed from current message during decoding
 	totalMsgBytes int    // Total bytes in current message being decoded
@@ -498,6 +499,7 @@ func (s *Stream) EndMessage(ctx context.Context) error {
 
 	// Reset buffer but keep sendEOM flag true until next message starts
 	s.sendBuffer = nil
+	s.sendPartial = false
 
 	return nil
 }
@@ -513,8 +515,10 @@ func (s *Stream) flushPartialFrame(ctx context.Context) error {
 		return err
 	}
 
-	// Clear buffer for next chunk
+	// Clear buffer for next chunk; the message now has a frame on the wire and
+	// stays open until EndMessage sends the final one.
 	s.sendBuffer = nil
+	s.sendPartial = true
 	return nil
 }
 
@@ -822,6 +826,9 @@ func (s *Stream) ExportCryptoState() ([]byte, error) {
 	}
 	if s.sendEOM {
 		return nil, fmt.Errorf("ExportCryptoState: not at a clean boundary (sendEOM set: outbound message end-of-message pending StartMessage)")
+	}
+	if s.sendPartial {
+		return nil, fmt.Errorf("ExportCryptoState: not at a clean boundary (a partial frame of the current outbound message has been sent; EndMessage pending)")
 	}
 
 	var flags byte
